@@ -38,3 +38,11 @@ pub fn encode(hrp: &str, data: Vec<u5>, v: Variant) -> (r: Result<String, Error>
         r is Ok ==> r->Ok_0@ == bech32_enc(hrp@, data@, v)->Some_0,
 { unimplemented!() }
 }
+verus! {
+/// lib.rs `decode`: the string is `<hrp>1<data>` with at least 6 checksum characters, all ASCII.
+pub broadcast axiom fn axiom_bech32_len(s: Seq<char>)
+    requires #[trigger] bech32_hrp(s) is Some,
+    ensures
+        crate::std_ext::str_byte_len(s) >= crate::std_ext::str_byte_len(bech32_hrp(s)->Some_0) + 7,
+        bech32_hrp(s)->Some_0.len() >= 1;
+}
